@@ -87,7 +87,10 @@ def gen(rng, tier):
             if r_ < 0.9:
                 return [op, other, ref1]
             return [rng.choice(['abs', 'neg']), ref1]
-        preds = [['pred', rng.choice(sg.CMPS), use(), ['const', rng.choice(sg.LATTICE)]] for _ in range(rng.randint(2, 3))]
+        def rhs():
+            return ['const', rng.choice(sg.LATTICE)] if rng.random() < 0.6 else ['var', rng.choice(vars_)]
+        preds = [['pred', rng.choice(sg.CMPS), use(), rhs()] for _ in range(rng.randint(2, 3))]
+        preds = [(q if rng.random() < 0.8 else ['pred', q[1], q[3], q[2]]) for q in preds]
         top = preds[0]
         for q in preds[1:]:
             top = [rng.choice(['and', 'or', 'implies']), top, q] if rng.random() < 0.5 else [rng.choice(['and', 'or', 'implies']), q, top]
